@@ -104,6 +104,14 @@ Lemma ok_put h c inp x v :
                         (dropped x) (got x) (gotclosed x) (reg_at x) (read_at x) (unsub_at x)).
 Proof. destruct x as [sg0 bch0 bclosed0 hand0 wch0 wclosed0 cancelled0 unsub0 dropped0 got0 gotclosed0 reg_at0 read_at0 unsub_at0]. unf. intros -> -> H. fin2. Qed.
 
+(* the repaired forwarder discards the value it holds: from then on the subscriber counts as one that
+   did not keep up (every clause about the stream is conditional on [dropped = false]) *)
+Lemma ok_abort h c inp x v :
+  sg x = SLive -> hand x = Some v -> cancelled x = true -> sub_ok h c inp x ->
+  sub_ok h c inp (mkSub SLive (bch x) (bclosed x) None (wch x) (wclosed x) true (unsub x)
+                        true (got x) (gotclosed x) (reg_at x) (read_at x) (unsub_at x)).
+Proof. destruct x as [sg0 bch0 bclosed0 hand0 wch0 wclosed0 cancelled0 unsub0 dropped0 got0 gotclosed0 reg_at0 read_at0 unsub_at0]. unf. intros -> -> -> H. fin2. Qed.
+
 Lemma ok_close h c inp x :
   sg x = SLive -> hand x = None -> bch x = [] -> bclosed x = true -> wclosed x = false ->
   sub_ok h c inp x ->
@@ -233,7 +241,7 @@ Qed.
 
 Lemma inv_step cfg s l s' : inv s -> step cfg s l = Some s' -> inv s'.
 Proof.
-  intros Hi H. pose proof Hi as [Hc Hs]. destruct l; cbn [step] in H.
+  intros Hi H. pose proof Hi as [Hc Hs]. destruct l; unfold step in H; cbn [stepx fix_fwd] in H.
   - (* LOp *)
     destruct (is_nil (pend s)) eqn:En; [|discriminate].
     destruct (pend s) as [|? ?] eqn:Ep; [|discriminate].
@@ -312,6 +320,12 @@ Proof.
     apply (inv_upd s i x _ (pend s) Hi Hx); [reflexivity|]. now apply ok_recvclosed.
   - destruct (st_eqb (cur s) v); inversion H; subst; exact Hi.
   - destruct (Bool.eqb (st_eqb (cur s) Running) b); inversion H; subst; exact Hi.
+  - (* LFwdAbort *)
+    apply with_sub_inv in H as (x & y & Hx & Hg & ->).
+    destruct (sg x) eqn:E1; [discriminate|]. destruct (hand x) as [v|] eqn:E2; [|discriminate].
+    destruct (wch x) as [|w r] eqn:E4; [discriminate|].
+    destruct (cancelled x) eqn:E3; [|discriminate]. inversion Hg; subst; clear Hg. rewrite <- E4.
+    apply (inv_upd s i x _ (pend s) Hi Hx); [reflexivity|]. now apply (ok_abort _ _ _ x v).
 Qed.
 
 Lemma inv_reach cfg ls s : run (step cfg) init ls = Some s -> inv s.
@@ -380,19 +394,19 @@ Proof.
   destruct (unsub x) eqn:Eu.
   - destruct (wch x) as [|w r] eqn:Ew.
     + destruct (hand x) as [v|] eqn:Eh.
-      * exists (LFwdPut i). split; [cbn; tauto|]. cbn [step]. unfold with_sub. rewrite Hx, Eh, Ew. discriminate.
+      * exists (LFwdPut i). split; [cbn; tauto|]. unfold step. cbn [stepx]. unfold with_sub. rewrite Hx, Eh, Ew. discriminate.
       * destruct (bch x) as [|v r] eqn:Eb.
         -- destruct (wclosed x) eqn:Ewc.
-           ++ exists (LRecvClosed i). split; [cbn; tauto|]. cbn [step]. unfold with_sub.
+           ++ exists (LRecvClosed i). split; [cbn; tauto|]. unfold step. cbn [stepx]. unfold with_sub.
               rewrite Hx, Hl, Ew, Ewc, Hg. discriminate.
-           ++ exists (LFwdClose i). split; [cbn; tauto|]. cbn [step]. unfold with_sub.
+           ++ exists (LFwdClose i). split; [cbn; tauto|]. unfold step. cbn [stepx]. unfold with_sub.
               rewrite Hx, Hl, Eh, Eb, K2, Ewc. discriminate.
-        -- exists (LFwdTake i). split; [cbn; tauto|]. cbn [step]. unfold with_sub.
+        -- exists (LFwdTake i). split; [cbn; tauto|]. unfold step. cbn [stepx]. unfold with_sub.
            rewrite Hx, Hl, Eh, Eb. discriminate.
     + exists (LRecv i w). split.
       * unfold pipeline_labels. apply in_or_app. right. apply in_map. destruct w; cbn; tauto.
-      * cbn [step]. unfold with_sub. rewrite Hx, Hl, Ew, st_eqb_refl. discriminate.
-  - exists (LUnsub i). split; [cbn; tauto|]. cbn [step]. rewrite (Hp eq_refl). cbn [is_nil].
+      * unfold step. cbn [stepx]. unfold with_sub. rewrite Hx, Hl, Ew, st_eqb_refl. discriminate.
+  - exists (LUnsub i). split; [cbn; tauto|]. unfold step. cbn [stepx]. rewrite (Hp eq_refl). cbn [is_nil].
     unfold with_sub. rewrite Hx, Hc, Eu. discriminate.
 Qed.
 
